@@ -166,6 +166,7 @@ func rank(b byte) int {
 }
 
 func run(c *ev.Ctx) {
+	truncatedSchemas(c)
 	L := 7
 	if c.Thorough() {
 		L = 8
